@@ -4,7 +4,7 @@ import json
 import re
 
 from vf import core, corpus, deviations, drive, prog, sweep
-from vf.props import c02
+from vf.props import c02, c03, c05, c06
 
 T8 = c02.T8
 ASSIGN_OPS = ["=", "+=", "-=", "*=", "/=", "%=", "<<=", ">>=", "&=", "^=", "|="]
@@ -113,6 +113,16 @@ def gen_control():
     return out
 
 
+def gen_rw_operands():
+    """Read-write / write-only register operands in every read/write pattern."""
+    out = []
+    d = [("int32_t", "a", "input"), ("int64_t", "res", "local")]
+    for sp in ["RdV", "ReV", "RxV", "RyV", "RzV", "RddV", "RxxV", "RyyV", "PdV", "PxV", "CdV", "MxV", "P0", "R31", "HEX_REG_ALIAS_LR"]:
+        for st in ["%s = a;", "%s = a; %s = a + 1;", "res = %s; %s = a;", "%s = a; res = %s;", "if (a) { %s = a; }", "if (a) { %s = a; } else { %s = 2; }", "for (i = 0; i < 2; i++) { %s = %s + i; }", "%s += a;", "%s = %s + %s;"]:
+            out.append(P(d, st.replace("%s", sp), ("rw", sp, st)))
+    return out
+
+
 def static_space(tier):
     specs = []
     if tier == "quick":
@@ -123,7 +133,10 @@ def static_space(tier):
         specs += c02.space("quick")
         specs += gen_assignments(T8, T8)
         specs += gen_bool_mix(["int8_t", "uint8_t", "uint16_t", "int32_t", "uint32_t", "int64_t", "uint64_t"])
-    specs += gen_reuse() + gen_folding() + gen_control()
+    specs += gen_reuse() + gen_folding() + gen_control() + gen_rw_operands()
+    specs += c06.space("quick")
+    if tier == "thorough":
+        specs += c03.space("quick") + c05.space("quick") + c06.space("thorough")
     seen = set()
     out = []
     for s in specs:
@@ -144,6 +157,7 @@ def has_const_cond(src):
 STATIC_FINDINGS = [
     ("KF-const-cond-dead-arm", "sorts", r"identifier \w+ does not hold a pure|local \w+ is read but no path ever sets it", has_const_cond),
     ("KF-const-cond-dead-arm", "wellformed", r"identifier '\w+' is not declared before use", has_const_cond),
+    ("KF-rw-operand-read-leak", "linearity", r"pure [A-Z][yz]{1,2}\w* is initialised but never used", lambda src: re.search(r"\b[A-Z][yz]{1,2}V\s*=[^=]", src) is not None),
     ("KF-const-cond-dead-arm", "linearity", r"is initialised but never used \(leak\)|is consumed 2 times without DUP", has_const_cond),
 ]
 
